@@ -18,7 +18,8 @@ RULE = ("correspondence: one driver line per call of the modelled function (sige
         "public_pair_to_sec, sec_to_public_pair, points_for_x, Key.from_sec, Key(public_pair), Key(secret_exponent), "
         "Key.wif payload, ParseAPI.wif on a payload); distinct = distinct line; non-trivial = the model returns a value")
 PARTIAL = [
-    "C10_der_roundtrip_partial excludes r or s >= 2^1015 (finding der-integer-length-128); nothing else is excluded",
+    "C10_der_roundtrip carries the hypothesis der_expressible (signature body shorter than 256^127 bytes: the limit of "
+    "the DER long form itself, beyond any byte string that can exist); no pycoin finding is excluded",
     "SEC round trip keeps `prime p` and the Fermat premise as hypotheses (proved by computation for p = 251 only)",
     "WIF: the Base58Check layer is a quantified pair with a round-trip hypothesis (property C11); hash160/address of the "
     "re-parsed key are compared on the implementation only (direct checks), the public point e*G is C02's subject",
@@ -639,23 +640,18 @@ def model_cases(rng, tier):
 
 
 # ---- direct property checks on the implementation ---------------------------------------------------------
-DER_LIMIT = 1 << 1015
-
-
 def chk_der_roundtrip(r, s):
     try:
         e = der.sigencode_der(r, s)
     except Exception as ex:
-        return {"kind": "der-encode-raises", "detail": "%s: %s" % (type(ex).__name__, ex), "oversize": r >= DER_LIMIT or s >= DER_LIMIT}
+        return {"kind": "der-encode-raises", "detail": "%s: %s" % (type(ex).__name__, ex)}
     for broken in (True, False):
         try:
             got = der.sigdecode_der(e, use_broken_open_ssl_mechanism=broken)
         except Exception as ex:
-            return {"kind": "der-decode-raises", "detail": "%s: %s" % (type(ex).__name__, ex), "broken": broken,
-                    "oversize": r >= DER_LIMIT or s >= DER_LIMIT}
+            return {"kind": "der-decode-raises", "detail": "%s: %s" % (type(ex).__name__, ex), "broken": broken}
         if got != (r, s):
-            return {"kind": "der-roundtrip-mismatch", "got": [hex(got[0]), hex(got[1])], "broken": broken,
-                    "oversize": r >= DER_LIMIT or s >= DER_LIMIT}
+            return {"kind": "der-roundtrip-mismatch", "got": [hex(got[0]), hex(got[1])], "broken": broken}
     return None
 
 
@@ -900,14 +896,10 @@ def replay_input(check, inp):
 
 
 def classify(pc, r):
-    if pc.name == "der_roundtrip" and r.get("oversize") and r["kind"] in ("der-encode-raises", "der-decode-raises", "der-roundtrip-mismatch"):
-        return "der-integer-length-128"
-    return None
+    return None          # no open finding for C10
 
 
-KNOWN_REPLAYS = {
-    "der-integer-length-128": lambda: chk_der_roundtrip(1 << 1015, 1),
-}
+KNOWN_REPLAYS = {}
 
 
 def _tok_int(t):
